@@ -279,8 +279,20 @@ def run_shards(exe, args, nshards, timeout, env=None, res=None, tag="h"):
                 log = open(of + ".log", errors="replace").read()[-3000:]
             except OSError:
                 log = ""
+            fatal = rc in (-4, -6, -7, -8, -11) or "AddressSanitizer" in log or "runtime error:" in log
             if rc == -999:
                 res.errs.append("shard %d of %s exceeded its hard timeout (%ds)" % (i, os.path.basename(exe), timeout))
+            elif fatal:
+                # the harness process itself runs the code under test (start-up, set-up, non-forking loops):
+                # its death by a fatal signal or a sanitizer report is an outcome of that code, not of the harness
+                k = log.find("ERROR:")
+                if k < 0:
+                    k = log.find("runtime error:")
+                    k = log.rfind("\n", 0, k) + 1 if k >= 0 else -1
+                head = " ".join((log[k:] if k >= 0 else log[-600:]).split())[:700]
+                res.viols.append(("crash", "kind=fatal the process running the code under test died (exit %d) outside a per-case "
+                                  "child, i.e. during start-up, set-up or a non-forking loop: %s" % (rc, head)))
+                res.stats["deadline_hit"] = res.stats.get("deadline_hit", 0) + 1
             else:
                 res.errs.append("shard %d of %s exited with %d: %s" % (i, os.path.basename(exe), rc, log))
     shutil.rmtree(rd, ignore_errors=True)
